@@ -175,7 +175,15 @@ func specCacheOK(tablesMaps map[uint64]*tableCache) bool {
 }
 
 func vc_Streamer_parseEvents_loop1_inv(pos Position, autocommit bool, tranEvents []*StreamEvent, tablesMaps map[uint64]*tableCache) bool {
-	return specCacheOK(tablesMaps) && vspec.Owned(tranEvents) && // the buffer is never memory that existed before the call,
+	return specCacheOK(tablesMaps) &&
+		// every cache entry is complete (a table map and a mapper table)
+		vspec.ForallKeys(tablesMaps, func(id uint64) bool {
+			tc, ok := tablesMaps[id]
+			// ... is an object of its own, made by this call (no two ids share an entry)
+			return !ok || (tc != nil && tc.tableMap != nil && tc.table != nil && vspec.Owned(tc) &&
+				(id == vcWatchID || tc != vcWatchTC))
+		}) &&
+		vspec.Owned(tranEvents) && // the buffer is never memory that existed before the call,
 		// C08: nor memory that was handed to the handler: it is nil or was allocated after the last delivery
 		vcDelivered <= vspec.Watermark() && (tranEvents == nil || vspec.BaseOf(tranEvents) > vcDelivered) &&
 		pos == vcAcc && // C04: the position to resume from is the accepted boundary
